@@ -317,6 +317,10 @@ func (g *Gen) fill(k Kind, depth int, hidden bool) *Node {
 			n.A = append(n.A, a)
 		}
 	}
+	if k == WSafeDetails && g.Cfg.RichArgs && len(n.A) >= 1 && g.T.Bool(1, 8) {
+		// an empty format string with arguments: still an annotation
+		n.S[0] = Str{Safe: true}
+	}
 	if ki.Tags {
 		nt := 1 + g.T.Draw(3)
 		usedKeys := map[string]bool{}
